@@ -54,6 +54,7 @@ def check(repo=None):
         env = dict(os.environ)
         env["CARGO_TARGET_DIR"] = TARGET
         env["CARGO_NET_OFFLINE"] = "true"
+        env["CARGO_INCREMENTAL"] = "0"  # scratch checkouts would each leave an incremental session behind
         env["RUSTFLAGS"] = "-Awarnings"
         env.pop("RUSTC_WORKSPACE_WRAPPER", None)
         p = subprocess.run(["cargo", "+nightly", "check", "--offline", "--message-format=json", "-q"], cwd=d, env=env,
@@ -108,6 +109,7 @@ def doctests(repo=None):
         env = dict(os.environ)
         env["CARGO_TARGET_DIR"] = TARGET
         env["CARGO_NET_OFFLINE"] = "true"
+        env["CARGO_INCREMENTAL"] = "0"  # scratch checkouts would each leave an incremental session behind
         env["RUSTFLAGS"] = "-Awarnings"
         env["RUSTDOCFLAGS"] = "-Awarnings"
         env.pop("RUSTC_WORKSPACE_WRAPPER", None)
